@@ -162,6 +162,7 @@ CASE_TIMEOUT_S = int(os.environ.get("VERIF_CASE_TIMEOUT", "10"))
 # failing input, and a change that makes (say) every re-appended element loop would otherwise cost
 # CASE_TIMEOUT_S per case
 MAX_TIMEOUTS_PER_CHUNK = 3
+WALL_FACTOR = 12
 
 
 class CaseTimeout(BaseException):
@@ -180,12 +181,26 @@ def eval_cases(mod, cases: list) -> list[dict]:
     def _alarm(signum, frame):
         raise CaseTimeout()
 
+    # The budget of a case is CPU time of this process (ITIMER_PROF), so that a busy machine cannot turn
+    # a slow but terminating case into a "does not terminate" report; a wall-clock alarm WALL_FACTOR times
+    # longer is the backstop for an operation that blocks without computing. The library (and pandas /
+    # numpy behind it) is loaded before the first case, outside any budget.
+    try:
+        import cfinterface.files.registerfile  # noqa: F401
+        import cfinterface.files.blockfile  # noqa: F401
+        import cfinterface.files.sectionfile  # noqa: F401
+    except Exception:
+        pass  # a tree that does not import is reported by the cases themselves
     can_alarm = hasattr(signal, "SIGALRM")
+    can_prof = hasattr(signal, "SIGPROF") and hasattr(signal, "setitimer")
     if can_alarm:
         try:
             old = signal.signal(signal.SIGALRM, _alarm)
+            if can_prof:
+                old_prof = signal.signal(signal.SIGPROF, _alarm)
         except ValueError:  # not in the main thread
             can_alarm = False
+            can_prof = False
     reqs, obss = [], []
     ntimeouts = 0
     for c in cases:
@@ -193,20 +208,28 @@ def eval_cases(mod, cases: list) -> list[dict]:
             break
         try:
             if can_alarm:
-                signal.alarm(CASE_TIMEOUT_S)
+                if can_prof:
+                    signal.setitimer(signal.ITIMER_PROF, CASE_TIMEOUT_S)
+                    signal.alarm(CASE_TIMEOUT_S * WALL_FACTOR)
+                else:
+                    signal.alarm(CASE_TIMEOUT_S)
             obs = mod.run_impl(c)
         except CaseTimeout:
             ntimeouts += 1
-            obs = {"harness_exc": "CaseTimeout", "msg": f"the operation on the real code did not finish within {CASE_TIMEOUT_S} s"}
+            obs = {"harness_exc": "CaseTimeout", "msg": f"the operation on the real code did not finish within {CASE_TIMEOUT_S} s of CPU time"}
         except Exception as e:  # the harness itself must never die on a mutant
             obs = {"harness_exc": type(e).__name__, "msg": str(e)[:300], "tb": traceback.format_exc()[-1500:]}
         finally:
             if can_alarm:
                 signal.alarm(0)
+                if can_prof:
+                    signal.setitimer(signal.ITIMER_PROF, 0)
         obss.append(obs)
         reqs.append(mod.request(c, obs))
     if can_alarm:
         signal.signal(signal.SIGALRM, old)
+        if can_prof:
+            signal.signal(signal.SIGPROF, old_prof)
     cases = cases[: len(obss)]
     resps = driver_batch(reqs)
     out = []
